@@ -443,6 +443,20 @@ def run_shard(spec):
             packages[second]["imports"] = [first]
             counters["history-with:component-importing-a-component"] += 1
         ops = gen_history(rng, ast, sm, packages)
+        chained = [q for q in sorted(packages) if packages[q].get("imports")]
+        if chained and rng.random() < 0.8:
+            # both components named explicitly in one text; later a text that names only the
+            # importing one and uses a type of the imported one
+            second = chained[0]
+            first = packages[second]["imports"][0]
+            t_first = packages[first]["types"][0]["name"]
+            both = {"op": "load", "text": "%%import %s\n%%import %s\n<%s both/>\n" % (first, second, t_first), "import": True}
+            only = {"op": "load", "text": "%%import %s\n<%s only/>\n" % (second, t_first), "import": True}
+            k = rng.randint(0, len(ops))
+            ops.insert(k, both)
+            ops.insert(rng.randint(k + 1, len(ops)), only)
+            if rng.random() < 0.5:
+                ops.insert(rng.randint(0, k), dict(only))
         if overlapping:
             loads = [k_ for k_, o in enumerate(ops) if o["op"] == "load"]
             for k_ in loads:
